@@ -520,6 +520,19 @@ def _own_yield(fnode) -> bool:
         todo.extend(ast.iter_child_nodes(n))
     return False
 
+def _declared_nonlocal(fn_node):
+    """names a nested def declares `nonlocal` (in its own body, not in defs nested deeper)"""
+    out, todo = set(), list(fn_node.body)
+    while todo:
+        n = todo.pop()
+        if isinstance(n, ast.Nonlocal):
+            out.update(n.names)
+        if isinstance(n, (ast.FunctionDef, ast.AsyncFunctionDef, ast.Lambda, ast.ClassDef)):
+            continue
+        todo.extend(ast.iter_child_nodes(n))
+    return out
+
+
 _PURE_STR_METHODS = {
     "capitalize", "casefold", "center", "count", "endswith", "expandtabs", "find", "index", "isalnum", "isalpha", "isascii", "isdecimal", "isdigit",
     "isidentifier", "islower", "isnumeric", "isprintable", "isspace", "istitle", "isupper", "ljust", "lower", "lstrip", "partition", "removeprefix",
@@ -1161,10 +1174,16 @@ class Interp:
                 return self.eval(n.body, env)
             if _own_yield(n):
                 return IterVal(self._lazy_generator(n.body, env))
+            outer = _declared_nonlocal(n)
             try:
                 self.exec_block(n.body, env)
             except _Return as r:
                 return r.value
+            finally:
+                # `nonlocal x`: assignments made by the nested function are the enclosing function's
+                for nm in outer:
+                    if nm in env:
+                        f.env[nm] = env[nm]
             return None
         if isinstance(f, ClassVal):
             return self.instantiate(f.cls, args, kwargs, node)
@@ -1556,7 +1575,12 @@ class Interp:
                 return self.global_name(m, al[2], node)
             return Builtin(al[1] + "." + al[2])
         if name in mod.const_nodes:
-            return self.eval(mod.const_nodes[name], {"__fn__": _ModuleFn(mod)})
+            # a module global is evaluated once (a sentinel `X = object()` must stay one object)
+            cache = self.__dict__.setdefault("_module_globals", {})
+            key = (id(mod), name)
+            if key not in cache:
+                cache[key] = self.eval(mod.const_nodes[name], {"__fn__": _ModuleFn(mod)})
+            return cache[key]
         if name in _BUILTIN_NAMES:
             return Builtin(name)
         if name in _BUILTIN_EXC:
@@ -2405,10 +2429,11 @@ class Interp:
     def _library(self, n, args, kwargs, node):
         """Pure standard-library helpers that refactorings like to use."""
         it = self.iterate
+        lz = self._lazy  # item by item: the input may be endless (itertools.repeat, count)
         if n == "itertools.chain":
-            return IterVal(x for a in args for x in it(a))
+            return IterVal(x for a in args for x in lz(a))
         if n == "itertools.chain.from_iterable":
-            return IterVal(x for a in it(args[0]) for x in it(a))
+            return IterVal(x for a in lz(args[0]) for x in lz(a))
         if n == "itertools.islice":
             vals = [None if a is None else self.index(a) for a in args[1:]]
             import itertools as _it
@@ -2427,18 +2452,20 @@ class Interp:
             xs = it(args[0])
             return IterVal(Tup([a, b]) for a, b in zip(xs, xs[1:]))
         if n == "itertools.accumulate":
-            xs = it(args[0])
+            xs = lz(args[0])
             f = args[1] if len(args) > 1 else kwargs.get("func")
-            out, acc = [], kwargs.get("initial")
-            if acc is not None:
-                out.append(acc)
-            for x in xs:
-                if acc is None and not out:
-                    acc = x
-                else:
-                    acc = self.call_value(f, [acc, x], {}) if f is not None else self.binop(ast.Add(), acc, x, node)
-                out.append(acc)
-            return IterVal(out)
+
+            def running(acc=kwargs.get("initial")):
+                first = acc is None
+                if not first:
+                    yield acc
+                for x in xs:
+                    if first:
+                        acc, first = x, False
+                    else:
+                        acc = self.call_value(f, [acc, x], {}) if f is not None else self.binop(ast.Add(), acc, x, node)
+                    yield acc
+            return IterVal(running())  # lazy: the input may be endless
         if n == "itertools.repeat":
             if len(args) < 2:
                 def forever(v=args[0]):
@@ -2464,13 +2491,25 @@ class Interp:
                     groups.append((k, [x]))
             return IterVal(Tup([k, IterVal(g)]) for k, g in groups)
         if n == "itertools.starmap":
-            return IterVal(self.call_value(args[0], it(row), {}) for row in it(args[1]))
+            return IterVal(self.call_value(args[0], it(row), {}) for row in lz(args[1]))
         if n in ("itertools.takewhile", "itertools.dropwhile"):
-            xs = it(args[1])
-            k = 0
-            while k < len(xs) and self.truth(self.call_value(args[0], [xs[k]], {})):
-                k += 1
-            return IterVal(xs[:k] if n.endswith("takewhile") else xs[k:])
+            src = lz(args[1])
+            pred = args[0]
+
+            def taking():
+                for x in src:
+                    if not self.truth(self.call_value(pred, [x], {})):
+                        return
+                    yield x
+
+            def dropping():
+                dropping_ = True
+                for x in src:
+                    if dropping_ and self.truth(self.call_value(pred, [x], {})):
+                        continue
+                    dropping_ = False
+                    yield x
+            return IterVal(taking() if n.endswith("takewhile") else dropping())
         if n == "itertools.product":
             import itertools as _it
 
@@ -2663,6 +2702,10 @@ class Interp:
             return isinstance(args[0], (FuncVal, PyFunc, Builtin, ClassVal))
         if n == "pow":
             return self.binop(ast.Pow(), args[0], args[1], node)
+        if n == "object" and not args:
+            return MockObj({}, "object")  # a fresh sentinel: equal only to itself
+        if n in ("operator.and_", "operator.or_", "operator.xor"):
+            return self.binop({"and_": ast.BitAnd, "or_": ast.BitOr, "xor": ast.BitXor}[n.split(".")[1]](), args[0], args[1], node)
         return _NOLIB
 
     def _set_method(self, m, recv: SetVal, args, kwargs, node):
@@ -3199,6 +3242,6 @@ EXT_CONSTS = {
 _BUILTIN_NAMES = {
     "len", "min", "max", "float", "int", "abs", "isinstance", "list", "tuple", "sorted", "reversed", "set", "enumerate",
     "zip", "range", "any", "all", "print", "str", "repr", "type", "filter", "map", "round", "dict", "frozenset", "iter", "bool",
-    "next", "sum", "divmod", "callable", "pow", "getattr", "setattr", "hasattr", "slice", "bytes", "bytearray",
+    "next", "sum", "divmod", "callable", "pow", "getattr", "setattr", "hasattr", "slice", "bytes", "bytearray", "object",
 }
 _BUILTIN_EXC = {"ValueError", "IndexError", "KeyError", "TypeError", "Exception", "NotImplementedError", "AssertionError", "UnicodeError", "RuntimeError", "AttributeError"}
